@@ -110,7 +110,7 @@ def judge(scn, exp, good, invs, result, final, expected_path):
                 viol.append(("partial-not-kept", {"rule": "before-invocation", "invocation": inv["i"]}))
             elif scn["resume_distinct"] and inv["kind"] != "resume":
                 viol.append(("partial-not-resumed", {"rule": "fetch-command-on-partial", "invocation": inv["i"]}))
-        elif exp["size"] is not None and prev is not None and len(prev) == 0:
+        elif exp["size"] and prev is not None and len(prev) == 0:
             facts["unspecified"].append("empty file: whether it counts as a resumable partial is not stated")
         prev = inv["post"]
     if exp["size"] is not None and prev is not None and 0 < len(prev) < exp["size"] and good.startswith(prev) and not returned:
